@@ -843,4 +843,78 @@ theorem C13_constructor_alias_counterexample :
   simp [constructHeapAliased, sortInPlace, hord, AnyFilt.sortTimes, AnyFilt.T, Filt.sortTimes, hasDup,
     Except.map, F]
 
+/-! ## call histories: results stay what they were -/
+
+theorem hist_append {γ : Type} (F : List γ → List γ) (h : Arrays γ) (a b : List (Ev γ)) :
+    hist F h (a ++ b) = hist F (hist F h a) b := by
+  simp [hist, List.foldl_append]
+
+/-- no later `evaluateS1` / `__call__` on the posterior, and no write of the caller into OTHER arrays,
+    changes an array that was handed out before -/
+theorem C13_history_keeps_results {γ : Type} (F : List γ → List γ) :
+    ∀ (evs : List (Ev γ)) (h : Arrays γ) (k : Nat) (a : List γ), h[k]? = some a →
+      (∀ e ∈ evs, e.touches k = false) → (hist F h evs)[k]? = some a := by
+  intro evs
+  induction evs with
+  | nil => intro h k a hk _; simpa [hist] using hk
+  | cons e es ih =>
+    intro h k a hk hno
+    have hklt : k < h.length := by
+      rcases Nat.lt_or_ge k h.length with hlt | hge
+      · exact hlt
+      · rw [List.getElem?_eq_none hge] at hk; cases hk
+    have he := hno e (by simp)
+    have hes : ∀ e' ∈ es, e'.touches k = false := fun e' he' => hno e' (by simp [he'])
+    have hstep : (histStep F h e)[k]? = some a := by
+      cases e with
+      | s1 x => simp only [histStep]; rw [List.getElem?_append_left hklt]; exact hk
+      | call x => simpa [histStep] using hk
+      | scribble j v =>
+        have hj : j ≠ k := by
+          intro hjk; subst hjk; simp [Ev.touches] at he
+        simp only [histStep]
+        rw [List.getElem?_set_ne hj]; exact hk
+    have := ih (histStep F h e) k a hstep hes
+    simpa [hist] using this
+
+/-- whatever happened to the object before, `evaluateS1(x)` hands out a NEW array holding `F x` -/
+theorem C13_s1_returns_fresh {γ : Type} (F : List γ → List γ) (h : Arrays γ) (pre : List (Ev γ))
+    (x : List γ) :
+    (hist F h (pre ++ [.s1 x])).length = (hist F h pre).length + 1 ∧
+    (hist F h (pre ++ [.s1 x]))[(hist F h pre).length]? = some (F x) := by
+  rw [hist_append]
+  simp [hist, histStep]
+
+/-- the array returned by `evaluateS1(x)` holds `F x` at every later moment: whatever was called
+    before and whatever is called afterwards (the caller not writing into that array itself) -/
+theorem C13_results_held {γ : Type} (F : List γ → List γ) (h : Arrays γ) (pre post : List (Ev γ))
+    (x : List γ) (hpost : ∀ e ∈ post, e.touches (hist F h pre).length = false) :
+    (hist F h (pre ++ Ev.s1 x :: post))[(hist F h pre).length]? = some (F x) := by
+  have : pre ++ Ev.s1 x :: post = (pre ++ [Ev.s1 x]) ++ post := by simp
+  rw [this, hist_append]
+  exact C13_history_keeps_results F post _ _ _ (C13_s1_returns_fresh F h pre x).2 hpost
+
+/-- … for the posterior: entry `q` of the array a caller got from `evaluateS1(x)` is, at any later
+    moment, `gradRaw … x q` — which `C13_grad` identifies with the derivative at `x` -/
+theorem C13_results_held_grad {τ : Type} (c : Cfg) (E : Env τ ℝ) (G : GradEnv ℝ) (filt : AnyFilt ℝ)
+    (sorted : Nat → τ) (h : Arrays ℝ) (pre post : List (Ev ℝ)) (x : List ℝ) (q : Nat)
+    (hq : q < c.nParameters)
+    (hpost : ∀ e ∈ post, e.touches (hist (gradArray c E G filt sorted 0) h pre).length = false) :
+    ∃ a, (hist (gradArray c E G filt sorted 0) h (pre ++ Ev.s1 x :: post))[
+        (hist (gradArray c E G filt sorted 0) h pre).length]? = some a ∧
+      a[q]? = some (gradRaw c E G filt sorted (fun i => x.getD i 0) q) := by
+  refine ⟨_, C13_results_held _ h pre post x hpost, ?_⟩
+  simp [gradArray, hq]
+
+/-- why the allocation sits inside `evaluateS1`: with ONE array allocated in `__init__` and returned
+    by every call (NOT chi) the gradient a caller holds for `x₁` reads as the one of `x₂` after the next
+    call, and as a mixture after a call that exits early (here: writes one entry only) -/
+theorem C13_shared_buffer_counterexample :
+    let F : List Nat → List Nat := fun x => x
+    let W : List Nat → List Nat := fun x => if x.head? = some 0 then x.take 1 else x
+    (hist F [] [.s1 [1, 2], .s1 [3, 4], .s1 [0, 7]])[0]? = some (F [1, 2]) ∧
+    histShared W [0, 0] [.s1 [1, 2], .s1 [3, 4]] = [3, 4] ∧
+    histShared W [0, 0] [.s1 [1, 2], .s1 [0, 7]] = [0, 2] := by
+  decide
+
 end ChiModel
